@@ -35,7 +35,10 @@ RULE = ("one case = (problem class, data fixture, construction mode [direct | fa
         "data + evaluated + re-loaded through every public setter must score like a fresh one; matrix layer: "
         "DenseExpectedMaximumBreedingValueMatrix.from_gmod with nprogeny/nrep as scalars and as per-taxon arrays with unequal "
         "entries x all row permutations of 2-/3-taxon populations x all generator answers with <=1 (thorough, smallest scope: <=2) "
-        "non-default crossover answers, DenseWeightedGenomicEstimatedBreedingValueMatrix.from_algmod; distinct by digest of "
+        "non-default crossover answers, DenseWeightedGenomicEstimatedBreedingValueMatrix.from_algmod; every factory additionally "
+        "on SHARED input objects (bvmat with location!=0, scale!=1, unscale True/False): inputs untouched after construction and "
+        "after evaluation, a second build (same encoding, then another encoding) equals the isolated build, the first problem's "
+        "data and answers unchanged afterwards; distinct by digest of "
         "(class, fixture, mode, decision)")
 ASSUME = ["mc/compat.py restores removed numpy names only",
           "numpy.linalg.cholesky / float arithmetic are correct (the kinship factor handed to directly constructed problems is "
@@ -45,6 +48,9 @@ ASSUME = ["mc/compat.py restores removed numpy names only",
           "model of C01, block designs are restricted to unambiguous ones (no marker on an inner bin boundary)",
           "the EMBV matrix factory simulates taxon by taxon, replicate by replicate (the documented loop): its gamete draws are "
           "attributed to (taxon, replicate) in that order",
+          "factory sharing: input objects are compared field by field (matrix values, labels, location/scale, model coefficients, "
+          "array arguments) before / after construction and after evaluation; objects a factory may legitimately cache inside "
+          "an input (none found) would need an exemption",
           "mean expected heterozygosity is taken in the library's documented form -(1-||Cc||_2) (DESIGN C05), not 1-c'Kc",
           "a subset decision may list a member twice (the subset sampler has replace=True as an option); such decisions are "
           "reported under their own ':repeated-members' signatures",
@@ -587,6 +593,12 @@ def run_factory(ctx, fname, n, variant, enc, focus=None):
             if hasattr(fam, "kmin"):
                 ks = [k for k in ks if k >= opt.get("nbest", 1)]
             ks = [k for k in ks if k <= N0]
+            if ks and not (focus and focus.get("stage") not in (None, "factory-sharing")):
+                ctx.guard(lambda: check_sharing(ctx, fam, cls, cn, enc, n, variant, perm, fac, opt, N0, ks[min(1, len(ks) - 1)],
+                                                dict(case, stage="factory-sharing"), focus),
+                          case=dict(case, stage="factory-sharing"), sig_prefix=f"{cn}.{fac}:sharing:")
+            if focus and focus.get("stage") == "factory-sharing":
+                continue
             built = {}
             skip = []
             for k in ks:
@@ -637,6 +649,91 @@ def run_factory(ctx, fname, n, variant, enc, focus=None):
                     ctx.count("layer:factory-latent")
 
 
+def check_sharing(ctx, fam, cls, cn, enc, n, variant, perm, fac, opt, N0, k, case, focus):
+    """Several problems built from the SAME input objects (breeding-value matrix with location != 0, scale != 1, genotype
+    matrices, model, array arguments): (i) the inputs are untouched after construction and after evaluation, (ii) a second
+    build in the same encoding and a build in another encoding hold the same data as an isolated build, (iii) the first
+    problem's data and answers do not change when further problems are built from the same inputs."""
+    fx = Fx(n, variant, ctx.seed, perm=perm, layout=opt.get("layout", "2x2"), shared=True)
+    fx.pgmat(); fx.gmat(); fx.gpmod(); fx.gpmod(fx.u_nz); fx.bvmat()
+    before = fx.input_state()
+    P = f"{cn}.{fac}:"
+    L = fam_L(fam, fx, fac, opt)
+
+    def untouched(when):
+        now = dict(fx.input_state())
+        ref = dict(before, **fx.pristine_args())
+        bad = first_difference_(ref, now)
+        require(bad is None, P + "input-mutated:" + str(bad), f"{when}: the factory's input '{bad}' was changed "
+                f"(before {FX._cp(ref.get(bad)) if bad else None!r}, after {now.get(bad)!r})", case)
+
+    def build(c, e, kk):
+        common = dict(space_kwargs(e, N0, kk), **eval_kwargs(DEFAULT_CFG, L, fx.wts)[0])
+        return fam.build_factory(c, e, fx, fac, opt, common)
+
+    p1, exps, d = build(cls, enc, k)
+    ctx.transitions += 1
+    if p1 is None:
+        return
+    ctx.count("layer:factory-sharing")
+    ctx.evaluations += 1
+    untouched("after the first build")
+    data1 = {e.attr: FX._cp(getattr(p1, e.attr)) for e in exps if e.how != "flag"}
+    decs = []
+    ans1 = {}
+    if d is not None:
+        decs = [x for kk, x, t in decisions_for(fam, enc, d["N"], d, ctx.tier) if kk == k][:40]
+        for x in decs:
+            xa = FX.to_array(enc, x)
+            ans1[x] = (p1.latentfn(xa).tolist(), [aslist(v) for v in p1.evalfn(xa)])
+        ctx.transitions += 2 * len(decs)
+        untouched("after evaluating the first problem")
+    # (ii) further builds from the same inputs
+    others = [(cls, cn, enc, k)]
+    encs = [e for e in FM.ENCS if e in fam.classes and e != enc]
+    if encs:
+        e2 = encs[0]
+        k2 = k if e2 != "subset" and enc != "subset" else (min(2, N0) if e2 == "subset" else N0)
+        if hasattr(fam, "kmin"):
+            k2 = max(k2, opt.get("nbest", 1))
+        others.append((FM.load(fam.module, fam.classes[e2]), fam.classes[e2], e2, k2))
+    for c2, cn2, e2, k2 in others:
+        p2, exps2, d2 = build(c2, e2, k2)
+        ctx.transitions += 1
+        ctx.evaluations += 1
+        if p2 is None:
+            continue
+        for e in exps2:
+            try:
+                check_attr(cn2, fac, p2, e, case)
+            except Violation as v:
+                raise Violation(v.sig + ":second-build-from-same-inputs", v.detail, v.case)
+        untouched(f"after building a second problem ({cn2})")
+    # (iii) the first problem is unchanged
+    for a, v in data1.items():
+        now = getattr(p1, a)
+        ok = same(numpy.asarray(now), numpy.asarray(v)) if isinstance(v, numpy.ndarray) else now == v
+        require(ok, P + "aliasing:data-changed-after-second-build:" + a,
+                f"attribute {a} of the first problem changed from {numpy.asarray(v).tolist()} to {numpy.asarray(now).tolist()} when further "
+                f"problems were built from the same input objects", case)
+    for x in decs:
+        xa = FX.to_array(enc, x)
+        now = (p1.latentfn(xa).tolist(), [aslist(v) for v in p1.evalfn(xa)])
+        require(identical(now[0], ans1[x][0]) and all(identical(u, w) for u, w in zip(now[1], ans1[x][1])),
+                P + "aliasing:answers-changed-after-second-build",
+                f"first problem: latentfn/evalfn({jx(x)}) was {ans1[x]} and is {now} after further problems were built from the same inputs",
+                dict(case, x=jx(x)))
+    ctx.transitions += 2 * len(decs)
+    ctx.traces += 1
+    ctx.state(digest((cn, fx.key(), fac, sorted(opt.items()), "sharing", k)))
+    if tuple(perm) != tuple(range(n)):
+        ctx.flag("sharing-on-permuted-population")
+
+
+def first_difference_(a, b):
+    return FX.first_difference(a, b)
+
+
 def expected_space(fam, fx, fac, opt):
     if isinstance(fam, FM.MateValueFamily):
         return len(R.cross_map(fx.n, opt.get("nparent", 2), opt.get("unique", True)))
@@ -668,6 +765,9 @@ def embv_factory(ctx, fam, cls, cn, enc, fx, case):
     tier = ctx.tier
     xop = [0.5 if j == 0 else 0.2 for c in fx.chrom for j in range(c)]
     pg, gp = fx.pgmat(), fx.gpmod()
+    from ..fix import snapshot as _snap, snap_equal as _sneq
+    pg_before = _snap(pg)
+    gp_before = {f_: FX._cp(getattr(gp, f_)) for f_ in ("beta", "u_a", "trait")}
     geno = A(fx.phased, "int8")
     for (nmating, nprogeny, nrep, uniq) in ((1, 1, 1, True), (1, 2, 2, True), (2, 1, 2, False)):
         if enc != "subset" and (nmating, nprogeny, nrep) == (2, 1, 2) and tier != "thorough":
@@ -724,6 +824,10 @@ def embv_factory(ctx, fam, cls, cn, enc, fx, case):
                 got = numpy.asarray(prob.embv, dtype=float)
                 require(got.shape == (len(rows), FX.T) and near(got.ravel().tolist(), [v for r in exp for v in r]), P + "embv",
                         lambda: f"embv = {got.tolist()}; mean over {nrep} simulation(s) of the best progeny GEBV per cross of {rows} = {exp}", c1)
+                okb, fld = _sneq(pg_before, _snap(pg))
+                require(okb, f"{cn}.from_pgmat_gpmod:input-mutated:pgmat." + str(fld), f"the factory changed field {fld} of the genotype matrix", c1)
+                for f_, v_ in gp_before.items():
+                    require(same(getattr(gp, f_), v_), f"{cn}.from_pgmat_gpmod:input-mutated:gpmod." + f_, f"the factory changed {f_} of the model", c1)
                 return exp
             got = []
             if ctx.guard(lambda: got.append(oracle()), case=c1, sig_prefix=f"{cn}.from_pgmat_gpmod:"):
@@ -936,7 +1040,7 @@ def finalize(ctx, tier, seed):
         assert c.get("cls:" + cn, 0) > 0, f"class never exercised: {cn}"
     for enc in FM.ENCS:
         assert c.get("enc:" + enc, 0) > 0, enc
-    for lay in ("definition", "agreement", "evalfn", "evaluate", "factory", "factory-latent", "history", "set-then-query", "matrix-factory"):
+    for lay in ("definition", "agreement", "evalfn", "evaluate", "factory", "factory-latent", "history", "set-then-query", "matrix-factory", "factory-sharing"):
         assert c.get("layer:" + lay, 0) > 0, lay
     for k in ("perm", "rescale", "encoding"):
         assert c.get("agree:" + k, 0) > 0, k
